@@ -19,15 +19,43 @@ CONTRACTS = {
         relpath='onsager/OnsagerCalc.py', qualname='VacancyMediated._symmetricandescaperates',
         params={'self': VALUE, 'bFV': ALIAS, 'bFSVkinetic': ALIAS, 'bFT0': ALIAS, 'bFT1': ALIAS, 'bFT2': ALIAS}, caches=(), callees={}, globals=('itertools',)),
 }
+# C24: a copied / summed StarSet shares no mutable container with its operands (the operands of an addition stay what they were)
+_SS_MUTABLE = ['jumpnetwork_index', 'jumplist', 'stars', 'states', 'index', 'indexdict']
+STARSET_CONTRACTS = {
+    'StarSet.copy': dict(
+        relpath='onsager/crystalStars.py', qualname='StarSet.copy', params={'self': VALUE, 'empty': VALUE},
+        new_objects={'newStarSet': _SS_MUTABLE}, deep_fields=('stars', 'jumpnetwork_index'), callees={'newStarSet.generate': VALUE}, caches=()),
+    'StarSet.__iadd__': dict(
+        relpath='onsager/crystalStars.py', qualname='StarSet.__iadd__', params={'self': VALUE, 'other': ALIAS},
+        new_objects={'self': _SS_MUTABLE}, deep_fields=('stars', 'jumpnetwork_index'), owned_fields=tuple('self.' + f for f in _SS_MUTABLE), value_fields=('self.Nshells', 'self.Nstates', 'self.Nstars', 'self.chem', 'self.crys', 'self.__class__'),
+        callees={}, caches=(), returns_self=True, value_methods=('iszero', 'g', 'add'), globals=('PairState', 'copy')),
+    'StarSet.__add__': dict(
+        relpath='onsager/crystalStars.py', qualname='StarSet.__add__', params={'self': ALIAS, 'other': ALIAS},
+        callees={'self.copy': FRESH, 'other.copy': FRESH, 'scopy.__iadd__': VALUE}, caches=(),
+        assumed=['StarSet.copy returns an object sharing no mutable container with its receiver; StarSet.__iadd__ modifies only its receiver (their own contracts, checked in the same run)']),
+}
+# C18 / C23: a Crystal shares no array with the arguments it was built from (later in-place edits by the caller cannot reach it)
+CRYSTAL_CONTRACTS = {
+    'Crystal.__init__': dict(
+        relpath='onsager/crystal.py', qualname='Crystal.__init__',
+        params={'self': VALUE, 'lattice': ALIAS, 'basis': ALIAS, 'chemistry': ALIAS, 'spins': ALIAS, 'NOSYM': VALUE, 'noreduce': VALUE, 'threshold': VALUE},
+        new_objects={'self': ['lattice', 'basis', 'spins', 'chemistry', 'invlatt', 'metric', 'reciplatt']}, deep_fields=('basis', 'spins'),
+        callees={'incell': FRESH, 'self.reduce': VALUE, 'self.minlattice': VALUE, 'self.calcmetric': [VALUE, FRESH], 'self.genBZG': FRESH, 'self.center': VALUE,
+                 'self.gengroup': VALUE, 'self.genpoint': VALUE, 'self.genWyckoffsets': VALUE, 'GroupOp.ident': VALUE},
+        caches=(), value_fields=('self.dim', 'self.N', 'self.Nchem', 'self.threshold'),
+        assumed=['incell returns a new array (its own contract, checked in the same run)',
+                 'reduce / minlattice / center / gengroup work on the fields of the crystal only (they receive no constructor argument)']),
+    'incell': dict(relpath='onsager/crystal.py', qualname='incell', params={'vec': ALIAS}, callees={}, caches=()),
+}
 CLASS_FIELDS = [('onsager/GFcalc.py', 'GFCrystalcalc', ['D', 'eta'])]
 
 
-def run(rep):
+def run(rep, contracts=None, class_fields=None):
     import time
     from vf import extract
     from vf.common import Ob, Undecided
     from vf.pyframe import fresh
-    for k, c in CONTRACTS.items():
+    for k, c in (CONTRACTS if contracts is None else contracts).items():
         fq = '%s::%s' % (c['relpath'], c['qualname']); t = time.time()
         try:
             fn = extract.get(c['relpath'], c['qualname'])
@@ -38,13 +66,13 @@ def run(rep):
             obs = fresh.Checker(c, fn).run()
         except Undecided as ex:
             rep.add(Ob('ownership:%s:supported-subset' % k, 'P', 'undecided', 'ownership-typing', time.time() - t, str(ex), function=fq)); continue
-        if not any(o[0].startswith('returns-fresh') for o in obs):
+        if not any(o[0].startswith(('returns-fresh', 'new-object-field-private')) for o in obs):
             rep.add(Ob('ownership:%s:obligation-count' % k, 'P', 'fault', 'ownership-typing', 0., 'no return obligation generated', function=fq)); continue
         for (name, ok, detail, line) in obs:
             rep.add(Ob('ownership:%s:%s' % (k, name), 'P', 'ok' if ok else 'fail', 'ownership-typing (AST walk)', (time.time() - t) / len(obs), detail,
                        witness=None if ok else dict(replayed=False, line=line, signature='%s|%s' % (k, name.split('@')[0])), function=fq))
         for a in c.get('assumed', []): rep.assume('ownership contract of %s assumes: %s' % (k, a))
-    for rel, cls, fields in CLASS_FIELDS:
+    for rel, cls, fields in (CLASS_FIELDS if class_fields is None else class_fields):
         tree, src = extract.module_ast(rel)
         bad = fresh.fields_only_rebound(tree, cls, fields)
         rep.add(Ob('ownership:%s:fields-rebound-not-mutated:%s' % (cls, ','.join(fields)), 'P', 'fail' if bad else 'ok', 'ownership-typing (AST walk)', 0.,
